@@ -68,6 +68,7 @@ type Contract struct {
 type SiteAssert struct {
 	Callee string
 	Ord    int // 0 = every site
+	Optional bool // may match no site at all (policy assertion)
 	Cl     Clause
 }
 
@@ -231,6 +232,12 @@ func parseContracts(src, pkgName, file string) ([]*Contract, map[string]*define,
 			}
 		case "before":
 			// before call <callee>[#k] assert <expr>
+			// before any call <callee> assert <expr>: a policy on every such call, of which there may be none
+			optional := false
+			if strings.HasPrefix(rest, "any call ") {
+				optional = true
+				rest = rest[4:]
+			}
 			k := strings.Index(rest, " assert ")
 			if !strings.HasPrefix(rest, "call ") || k < 0 {
 				return nil, nil, fmt.Errorf("%s:%d: before call <callee>[#k] assert <expr>", file, line)
@@ -243,7 +250,7 @@ func parseContracts(src, pkgName, file string) ([]*Contract, map[string]*define,
 					site = site[:h]
 				}
 			}
-			cur.Asserts = append(cur.Asserts, SiteAssert{Callee: site, Ord: ord, Cl: Clause{Text: strings.TrimSpace(rest[k+8:]), Line: line, Tag: curTag}})
+			cur.Asserts = append(cur.Asserts, SiteAssert{Callee: site, Ord: ord, Optional: optional, Cl: Clause{Text: strings.TrimSpace(rest[k+8:]), Line: line, Tag: curTag}})
 			c := cur
 			lastAppend = func(s string) { c.Asserts[len(c.Asserts)-1].Cl.Text += " " + s }
 		default:
